@@ -292,3 +292,46 @@ prop("C20",
                   "(it composes C08's decoder with C17's detector and geodesic.Direct)"],
      note="Trusted: Coq kernel + vm_compute; correspondence harness (binary runner, TOML writer, trace parser, library pipeline oracle). Modelled not verified: viper.GetStringMap key lower-casing, "
           "mapstructure field matching, cobra flag parsing.")
+
+GEO_NOTE = ("Trusted: Coq kernel; correspondence harness incl. its independent float64 geometry (vector/atan2 and local-plane distance to a segment, with an error estimate that widens "
+            "the undecided band). NOT proved: the numeric accuracy of Go's math functions and of the formulas over the continuous domain (DESIGN.md section 7) - those clauses are tested per instance.")
+
+prop("C17",
+     axioms="none",
+     level="proof",
+     design_ref="DESIGN.md section 5 C17 and section 7",
+     technique="Rocq proof of the decision logic for all values of the computed quantities (tolerance monotone, end-point order, end caps) + correspondence of that decision on the real intermediate quantities (verif hook) + per-instance geometric test against an independent distance-to-segment computation outside the guard band. PARTIAL: geometry is tested, not proved",
+     text="Proved (over exact rationals, every float64 being one): enlarging the tolerance never turns a hit into a miss, swapping the end-point distances does not change the decision, within "
+          "tolerance of an end point is always a hit.  The decision model is tied to the code by feeding it the very quantities OnLine computed (exposed under the verif tag).  That those "
+          "quantities mean 'great-circle distance to the segment' is NOT proved: each generated (line, position, tolerance, radius) is compared with an independent computation, and hits/misses "
+          "are demanded only outside 1% + 0.1 mm + twice the oracle's own error estimate.",
+     rule="one case = (line 0.5 m-1.5 km at any bearing, |lat| < 85; position -0.3..1.3 line lengths along and 0/0.5/0.9/0.97/1.03/1.1/1.5/3 tolerances aside, plus end-cap positions; tolerance "
+          "5 mm-75 m; 15% other radii) with swapped end points and doubled tolerance; distinct = distinct JSON; all non-trivial",
+     assumptions=["the oracle is float64: cases closer to the boundary than guard band + 2 x its error estimate are undecided (counted in the histogram as expected:2)"],
+     note=GEO_NOTE)
+
+prop("C18",
+     axioms="reals",
+     level="proof",
+     design_ref="DESIGN.md section 5 C18 and section 7",
+     technique="Rocq proofs over the reals of the algebraic clauses (symmetry, linearity in the radius, zero for identical positions, for both methods) + per-instance numeric test against an independent great-circle / distance-to-segment computation. PARTIAL: accuracy bounds are tested, not proved",
+     text="Proved over R for the formulas as written in haversine.go/equirect.go: distance symmetric, linear in the radius, zero for identical positions (default and fast method).  The accuracy "
+          "clauses (1e-9 relative default, 1e-5 fast under 10 km below 80 degrees, distance to a line within 1% + 1 mm) are tested per generated pair / (segment, position) against an independent "
+          "float64 computation with an absolute floor of 5 nm (the oracle's resolution).",
+     rule="1500 pairs 5 cm-1500 km at any bearing and |lat| < 85 (5% identical, 15% other radii) + 1500 (segment 0.5 m-1.5 km, position within +-150 m beside and -0.5..1.5 lengths along), away from the 180th meridian; "
+          "distinct = distinct JSON; all non-trivial",
+     assumptions=["Go's math.Sin/Cos/Asin/Sqrt are not modelled; the Coq functions are the real-number formulas"],
+     note=GEO_NOTE)
+
+prop("C19",
+     axioms="reals",
+     level="proof",
+     design_ref="DESIGN.md section 5 C19 and section 7",
+     technique="Rocq proofs of the plane intersection (homogeneous cross products, over R) and of the bounded decision + correspondence of the decision on the azimuths IntersectExt reports + per-instance tests of projection round trips and of the crossing lying on both geodesics. PARTIAL: the ellipsoidal numerics (Karney's solver) have no model",
+     text="Proved: the normalised cross product of the two homogeneous lines lies on both lines whenever they are not parallel; Intersect returns the point iff the arriving and leaving azimuths "
+          "agree in sign on both segments (after the repair D17).  Tied to the code by comparing Intersect's error with that decision on the azimuths IntersectExt itself returns.  Not modelled: "
+          "GenInverse/LineInit/GenPosition; the projection round trips (1e-9 degrees, 1e-6 relative, NaN beyond the horizon) and 'the crossing lies on both geodesics' are implementation-side tests.",
+     rule="300 (centre, point) pairs 8 m-17000 km apart for the projection clauses + up to 300 segment pairs built around a common crossing (lengths 5 m-1500 km, crossing angle 25-155 degrees, azimuths "
+          "kept 10 degrees away from 0/180, crossing at 20-80% of both segments or 20-100% beyond one end); distinct = distinct JSON; all non-trivial",
+     assumptions=["segments straddling the 180th meridian and azimuths within 10 degrees of north/south are not generated (the sign test is only meaningful away from 0/180)"],
+     note=GEO_NOTE)
